@@ -289,7 +289,12 @@ func DecodeBatch(rec arrow.RecordBatch) Batch {
 }
 
 // ReadStream decodes exactly one IPC stream from r (blocking reads).
-func ReadStream(r io.Reader) (*Stream, error) {
+func ReadStream(r io.Reader) (*Stream, error) { return ReadStreamFn(r, nil) }
+
+// ReadStreamFn is ReadStream with a hook applied to every record before it is
+// decoded (shared-memory pointer resolution). The hook returns the record to
+// decode and whether the caller must release it.
+func ReadStreamFn(r io.Reader, fn func(arrow.RecordBatch) (arrow.RecordBatch, bool)) (*Stream, error) {
 	rd, err := ipc.NewReader(r)
 	if err != nil {
 		return nil, err
@@ -300,7 +305,16 @@ func ReadStream(r io.Reader) (*Stream, error) {
 		st.Fields = append(st.Fields, f.Name+":"+f.Type.String())
 	}
 	for rd.Next() {
-		st.Batches = append(st.Batches, DecodeBatch(rd.RecordBatch()))
+		rec := rd.RecordBatch()
+		if fn != nil {
+			out, owned := fn(rec)
+			st.Batches = append(st.Batches, DecodeBatch(out))
+			if owned {
+				out.Release()
+			}
+			continue
+		}
+		st.Batches = append(st.Batches, DecodeBatch(rec))
 	}
 	if err := rd.Err(); err != nil && err != io.EOF {
 		return st, err
